@@ -340,3 +340,26 @@ class GhostSeq:
 
     def __repr__(self):
         return f"GhostSeq<{self.name}>"
+
+
+class KeySetVal:
+    """Immutable value of a key-identified set of records: present[key], fields[key]."""
+
+    def __init__(self, shape, present, arrays):
+        self.shape = shape          # spec.KeySet
+        self.present = present      # nested Array key.. -> Bool
+        self.arrays = arrays        # struct of nested arrays for every field of the element record
+        self.enum = None            # memoized enumeration (SymSeq)
+
+    def __repr__(self):
+        return "KeySetVal<>"
+
+
+class HKeySet:
+    """Heap cell holding a KeySetVal (python sets are mutable)."""
+
+    def __init__(self, val):
+        self.val = val
+
+    def copy(self):
+        return HKeySet(self.val)
